@@ -74,6 +74,11 @@ func exec1(s *Scenario, r *Run) (v *Violation, aborted string, hp *harnessPanic)
 				aborted = a.Reason
 				return
 			}
+			if f, ok := x.(FailNow); ok {
+				// a violation met where no *Violation can be returned (world constructors)
+				v = r.Viol(f.Inv, f.Key, "%s", f.Msg)
+				return
+			}
 			hp = &harnessPanic{x, string(debug.Stack())}
 		}
 	}()
